@@ -137,6 +137,30 @@ pub fn boundary(l: Layout, tier: Tier) -> Vec<u128> {
     a.push(0xdead_beef_cafe_f00d_1234_5678_9abc_def1);
     a.push(0x0123_4567_89ab_cdef_fedc_ba98_7654_3210u128 >> (128 - w));
     a.push(0xdead_beef_cafe_f00d_1234_5678_9abc_def1u128 >> (128 - w));
+    // further fixed irregular patterns (a fixed splitmix64 sequence written into the alphabet: the same finite
+    // set on every run), full width and right-aligned at a few lengths, so that mid-range magnitudes without
+    // any structure are present at every width
+    {
+        let mut st: u64 = 0x9e37_79b9_7f4a_7c15;
+        let mut next = || {
+            st = st.wrapping_add(0x9e37_79b9_7f4a_7c15);
+            let mut z = st;
+            z = (z ^ (z >> 30)).wrapping_mul(0xbf58_476d_1ce4_e5b9);
+            z = (z ^ (z >> 27)).wrapping_mul(0x94d0_49bb_1331_11eb);
+            z ^ (z >> 31)
+        };
+        let n = match tier {
+            Tier::Quick => 12,
+            Tier::Thorough => 64,
+        };
+        for i in 0..n {
+            let x = ((next() as u128) << 64) | next() as u128;
+            a.push(x);
+            // shorter magnitudes: w/2, w/4 and 3w/4 significant bits
+            let sh = [w / 2, w / 4, 3 * w / 4][i % 3];
+            a.pm((x & m) >> (w - sh));
+        }
+    }
     if tier == Tier::Thorough {
         // runs of ones of every length anchored at both ends
         for k in 1..w {
